@@ -1,1 +1,114 @@
-pub fn placeholder() {}
+//! Shared helpers for the conformance harness binaries.
+use serde_json::Value;
+use std::collections::HashMap;
+
+/// `--key value` command line arguments.
+pub struct Args(pub HashMap<String, String>);
+
+impl Args {
+    pub fn parse() -> Self {
+        let mut m = HashMap::new();
+        let v: Vec<String> = std::env::args().skip(1).collect();
+        let mut i = 0;
+        while i < v.len() {
+            let k = v[i].trim_start_matches("--").to_string();
+            if i + 1 < v.len() && !v[i + 1].starts_with("--") {
+                m.insert(k, v[i + 1].clone());
+                i += 2;
+            } else {
+                m.insert(k, "1".to_string());
+                i += 1;
+            }
+        }
+        Args(m)
+    }
+    pub fn get(&self, k: &str) -> Option<&str> {
+        self.0.get(k).map(|s| s.as_str())
+    }
+    pub fn str(&self, k: &str, d: &str) -> String {
+        self.get(k).unwrap_or(d).to_string()
+    }
+    pub fn u64(&self, k: &str, d: u64) -> u64 {
+        self.get(k).map(|s| s.parse().expect("int arg")).unwrap_or(d)
+    }
+}
+
+/// Read a file with one JSON value per line.
+pub fn read_jsonl(path: &str) -> Vec<Value> {
+    let s = std::fs::read_to_string(path).unwrap_or_else(|e| panic!("read {path}: {e}"));
+    s.lines()
+        .filter(|l| !l.trim().is_empty())
+        .map(|l| serde_json::from_str(l).unwrap_or_else(|e| panic!("json {e}: {l}")))
+        .collect()
+}
+
+/// Write NDJSON lines.
+pub fn write_lines(path: &str, lines: &[String]) {
+    use std::io::Write;
+    let f = std::fs::File::create(path).unwrap_or_else(|e| panic!("create {path}: {e}"));
+    let mut w = std::io::BufWriter::new(f);
+    for l in lines {
+        w.write_all(l.as_bytes()).unwrap();
+        w.write_all(b"\n").unwrap();
+    }
+    w.flush().unwrap();
+}
+
+/// Run `f`, turning a panic into `Err(message)`. Panics in the code under test are data.
+pub fn catch<T>(f: impl FnOnce() -> T) -> Result<T, String> {
+    IN_CATCH.with(|c| c.set(c.get() + 1));
+    let r = std::panic::catch_unwind(std::panic::AssertUnwindSafe(f));
+    IN_CATCH.with(|c| c.set(c.get() - 1));
+    match r {
+        Ok(v) => Ok(v),
+        Err(e) => Err(if let Some(s) = e.downcast_ref::<&str>() {
+            s.to_string()
+        } else if let Some(s) = e.downcast_ref::<String>() {
+            s.clone()
+        } else {
+            "panic".to_string()
+        }),
+    }
+}
+
+/// Silence the default panic hook (panics are recorded in the trace instead).
+pub fn quiet_panics() {
+    let default = std::panic::take_hook();
+    std::panic::set_hook(Box::new(move |info| {
+        if IN_CATCH.with(|c| c.get()) == 0 {
+            default(info);
+        }
+    }));
+}
+
+thread_local! {
+    static IN_CATCH: std::cell::Cell<u32> = const { std::cell::Cell::new(0) };
+}
+
+/// XOR distance of two 32-byte keys as big-endian bytes (independent of the code under test).
+pub fn xor32(a: &[u8; 32], b: &[u8; 32]) -> [u8; 32] {
+    let mut o = [0u8; 32];
+    for i in 0..32 {
+        o[i] = a[i] ^ b[i];
+    }
+    o
+}
+
+/// SHA-256 (independent of the code under test).
+pub fn sha256(data: &[u8]) -> [u8; 32] {
+    use sha2::Digest;
+    let d = sha2::Sha256::digest(data);
+    let mut o = [0u8; 32];
+    o.copy_from_slice(d.as_slice());
+    o
+}
+
+/// Index of the highest set bit of a 256-bit big-endian number, if any.
+pub fn ilog2_be(d: &[u8; 32]) -> Option<u32> {
+    for (i, b) in d.iter().enumerate() {
+        if *b != 0 {
+            return Some((31 - i as u32) * 8 + (7 - b.leading_zeros()));
+        }
+    }
+    None
+}
